@@ -138,9 +138,9 @@ let norm_numlist (toks : string list) = toks
 type record = {
   mutable op : string list; mutable perm : n list; mutable qperm : n list; mutable fuse : n option;
   mutable result : string; mutable states : (n * string) list; mutable logd : string option;
-  mutable dumps : (n * string) list; mutable line : int;
+  mutable dumps : (n * string) list; mutable line : int; mutable skipk : bool;
 }
-let fresh () = { op = []; perm = []; qperm = []; fuse = None; result = ""; states = []; logd = None; dumps = []; line = 0 }
+let fresh () = { op = []; perm = []; qperm = []; fuse = None; result = ""; states = []; logd = None; dumps = []; line = 0; skipk = false }
 
 let verbose = ref false
 let aspects = ref "RSHAKD"   (* Result State Hashes Allocs/frees Kept-ledger(drops) Dumps *)
@@ -194,7 +194,7 @@ let attempt cfg w (r : record) op (on, tomb) : (world * out) option * string opt
          (* keep only the aspects under comparison *)
          match split l with
          | h :: a :: f :: rest ->
-           join ((if asp 'H' then [h] else ["_"]) @ (if asp 'A' then [a; f] else ["_"; "_"]) @ (if asp 'K' then rest else []))
+           join ((if asp 'H' then [h] else ["_"]) @ (if asp 'A' then [a; f] else ["_"; "_"]) @ (if asp 'K' && not r.skipk then rest else []))
          | _ -> l in
        let ml = pick (canon_log (str_logdelta w.w_log w'.w_log)) in
        let ol = pick (canon_log obs) in
@@ -270,6 +270,7 @@ let () =
     | 'S' -> (match split body with
         | slot :: rest -> !cur.states <- !cur.states @ [(n_of_string slot, join rest)]
         | [] -> ())
+    | 'X' -> !cur.skipk <- true
     | 'L' -> !cur.logd <- Some (join (split body))
     | 'D' -> (match split body with
         | slot :: rest -> !cur.dumps <- !cur.dumps @ [(n_of_string slot, join rest)]
